@@ -11,14 +11,14 @@ def isHashOp : Expr → Bool
   | _ => false
 
 /-- `visit_numeric_for` (suspicious_reverse_loop.rs:50-67): no step, start is `#…`, end is a number
-token whose text `str::parse::<f64>` reads (`Ok(end)`) with `end <= 1.0`.  The label runs from the start of the start expression to the end of the
+token for which `number_value` is `Some(end)` with `end <= 1.0`.  The label runs from the start of the start expression to the end of the
 end expression. -/
 def hook : Node → List Diag
   | .stmt (.numFor _ _ _ a e .none _) =>
     if isHashOp a then
       match e with
       | .num t =>
-        if rustF64LeOne t.text then
+        if numberValueLeOne t.text then
           [{ code := "suspicious_reverse_loop", primary := ⟨a.span.first, t.idx⟩, msg := message }]
         else []
       | _ => []
